@@ -304,6 +304,49 @@ func (c *c14) scan(st, nmS, nrS, own string) string {
 	return fmt.Sprintf("targets=%s keys=%d", strings.Join(targets, ","), keys)
 }
 
+// c14.flags <M|R|B> <flags of replica a> <flags of replica b>   one master with two replicas; the routing table is loaded from a CLUSTER
+// NODES text in which the replicas carry the given flags columns ("slave", "slave,fail", "slave,fail?", "slave,noaddr", …); 60 GETs
+//
+//	-> reads=<the nodes that received them: M, Ra, Rb>
+func (c *c14) flags(st, fa, fb string) string {
+	strat, ok := map[string]pbredis.ReadStrategy{"M": pbredis.ReadStrategy_MASTER, "R": pbredis.ReadStrategy_REPLICA, "B": pbredis.ReadStrategy_BOTH}[st]
+	if !ok {
+		return "bad-op"
+	}
+	c14seq++
+	m, ra, rb := hx.NodeAddr(0), "10.9.9.1:7001", "10.9.9.2:7002"
+	rig := redis.VerifNewRig(fmt.Sprintf("c14flags-%d", c14seq), hx.RedisConfig(strat, nil), []*host.Host{host.New(m)}, []string{m, ra, rb})
+	defer hx.DropScopes(rig.ScopeName())
+	text := fmt.Sprintf("idm %s@1 myself,master - 0 0 1 connected 0-16383\nida %s@1 %s idm 0 0 1 connected\nidb %s@1 %s idm 0 0 1 connected\n", m, ra, fa, rb, fb)
+	if err := rig.Refresh(&redis.RespValue{Type: redis.BulkString, Text: []byte(text)}); err != nil {
+		return "refresh-failed"
+	}
+	seen := map[string]bool{}
+	for i := 0; i < 60; i++ {
+		rig.Handle(hx.Bulks([]byte("get"), []byte(fmt.Sprintf("k%d", i))))
+		for _, s := range rig.Drain() {
+			switch s.Addr {
+			case m:
+				seen["M"] = true
+			case ra:
+				seen["Ra"] = true
+			case rb:
+				seen["Rb"] = true
+			default:
+				seen["X"] = true
+			}
+			s.Reply(&redis.RespValue{Type: redis.BulkString, Text: []byte("v")})
+		}
+	}
+	var out []string
+	for _, k := range []string{"M", "Ra", "Rb", "X"} {
+		if seen[k] {
+			out = append(out, k)
+		}
+	}
+	return "reads=" + strings.Join(out, ",")
+}
+
 var c14seq int
 
 func (c *c14) Exec(op string) string {
@@ -317,6 +360,9 @@ func (c *c14) Exec(op string) string {
 			own = f[4]
 		}
 		return recoverStr(func() string { return c.scan(f[1], f[2], f[3], own) })
+	}
+	if len(f) == 4 && f[0] == "c14.flags" {
+		return recoverStr(func() string { return c.flags(f[1], f[2], f[3]) })
 	}
 	if len(f) >= 2 && f[0] == "c14.strat" {
 		return recoverStr(func() string { return c.strat(f[1:]) })
@@ -442,6 +488,13 @@ func (c *c14) Gen(r *hx.Run) {
 				}
 				r.Do(fmt.Sprintf("c14.scan %s %d %d %s", st, nm, rng.Intn(3), own), true, "scan-roles")
 			}
+		}
+	}
+	// replicas the cluster reports as failed, without address, or only suspects
+	fl := []string{"slave", "myself,slave", "slave,fail", "slave,fail?", "slave,noaddr", "slave,handshake", "slave,fail,noaddr"}
+	for _, st := range []string{"M", "R", "B"} {
+		for i := 0; i < r.N(6, 40); i++ {
+			r.Do(fmt.Sprintf("c14.flags %s %s %s", st, fl[rng.Intn(len(fl))], fl[rng.Intn(len(fl))]), true, "replica-flags")
 		}
 	}
 	for _, op := range []string{"c14.scan M 1 1", "c14.scan M 3 2", "c14.scan M 2 0", "c14.scan M 5 1"} {
